@@ -16,7 +16,9 @@ COMPONENTS = {
     'modelled': ['concurrent.futures.ProcessPoolExecutor -> dsim.kernel.SimPool (fork-at-first-submit, FIFO call queue, os._exit)',
                  'process scheduling and op durations (discrete-event, ChoiceSource)', 'wall clock / sleep / monotonic',
                  'pids, pid liveness, OS entropy, uuid1/uuid4', 'user-space write buffers in front of real files on tmpfs',
-                 'atexit (registered, never run in pool workers)'],
+                 'atexit (registered, never run in pool workers)',
+                 "the child process of the driver's generic Code_File path (subprocess.Popen seam -> a small pure 'site model' run as one step of "
+                 'the worker; any other command line is a harness error)'],
     'stubbed': ['matplotlib.pyplot figure/hist/savefig (hist -> numpy.histogram)', 'stdout/stderr of the driver'],
 }
 
